@@ -451,7 +451,7 @@ theorem lowRecvB_ptrAssignEmb (st : St) (tid d c v : Nat) (ht : tid < nThreads) 
     into an embedded slot without holding the only handle: a single-threaded-only call, see the OPEN note) -/
 def idxOkN : NOp → Prop
   | .flat op => idxOk op ∧ ∀ d s, op ≠ .pLink d s
-  | .vPushV d s | .xAddC d s | .vGetV d s _ | .xGetC d s _ => d < nVars ∧ s < nVars
+  | .vPushV d s | .xAddC d s | .vGetV d s _ | .xGetC d s _ | .aPushV d s | .aGetV d s _ => d < nVars ∧ s < nVars
 
 theorem lowRecv_lists (tid : Nat) (op : NOp) (ht : tid < nThreads) (hi : idxOkN op) :
     (∀ st, LowRecv (preN st tid op)) ∧ (∀ s1, LowRecv (postN s1 tid op)) := by
@@ -463,6 +463,10 @@ theorem lowRecv_lists (tid : Nat) (op : NOp) (ht : tid < nThreads) (hi : idxOkN 
     refine ⟨fun st => lowRecv_of_B ?_, fun s1 => lowRecv_of_B (lowRecvB_appendN _ _ _ _ _ _ _ ht hi.1)⟩
     simp only [preN]; split <;> simp [lowRecvB_cons, lowRecvB_nil, recv, lowV hi.1]
   | vGetV d s k => exact ⟨fun st => lowRecv_of_B (lowRecvB_getEmb _ _ _ _ _ _ _ ht hi.1), fun s1 => lowRecv_of_B rfl⟩
+  | aPushV d s =>
+    refine ⟨fun st => lowRecv_of_B ?_, fun s1 => lowRecv_of_B (lowRecvB_appendN _ _ _ _ _ _ _ ht hi.1)⟩
+    simp only [preN]; split <;> simp [lowRecvB_cons, lowRecvB_nil, recv, lowV hi.1]
+  | aGetV d s k => exact ⟨fun st => lowRecv_of_B (lowRecvB_getEmb _ _ _ _ _ _ _ ht hi.1), fun s1 => lowRecv_of_B rfl⟩
   | xGetC d s k => exact ⟨fun st => lowRecv_of_B (lowRecvB_getEmb _ _ _ _ _ _ _ ht hi.1), fun s1 => lowRecv_of_B rfl⟩
   | flat op =>
     obtain ⟨hi, hnl⟩ := hi
@@ -473,6 +477,11 @@ theorem lowRecv_lists (tid : Nat) (op : NOp) (ht : tid < nThreads) (hi : idxOkN 
       cases op <;> try exact lowRecv_of_lowB (hpost s1)
       case vPush d x => exact lowRecv_of_B (lowRecvB_appendN _ _ _ _ _ _ _ ht hi)
       case vSetList d x =>
+        apply lowRecv_of_B
+        simp only [postN]
+        (repeat' split) <;> simp [lowRecvB_append, lowRecvB_dropEmb, ht, lowRecvB_cons, lowRecvB_nil, recv, cloneReleaseFirst, lowV hi]
+      case vPushA d x => exact lowRecv_of_B (lowRecvB_appendN _ _ _ _ _ _ _ ht hi)
+      case vSetArr d x =>
         apply lowRecv_of_B
         simp only [postN]
         (repeat' split) <;> simp [lowRecvB_append, lowRecvB_dropEmb, ht, lowRecvB_cons, lowRecvB_nil, recv, cloneReleaseFirst, lowV hi]
